@@ -299,9 +299,9 @@ func (ev *SpecEnv) ident(name string) (Val, types.Type) {
 	if ev.fr != nil {
 		if nr, ok := ev.fr.Names[name]; ok {
 			if nr.IsAddr {
-				return ev.ex.load(ev.st, nr.V, "spec"), nil
+				return ev.ex.load(ev.st, nr.V, "spec"), nr.Typ
 			}
-			return nr.V, nil
+			return nr.V, nr.Typ
 		}
 	}
 	if t := ev.ex.P.LookupType(name, ev.pkg); t != nil {
@@ -642,6 +642,35 @@ func (ev *SpecEnv) callExpr(x *ast.CallExpr) (Val, types.Type) {
 		mem := ev.heapMem(sv.Region)
 		ev.ex.Funs["0uf_beval"] = fmt.Sprintf("(declare-fun beval (%s Int Int) Int)", mem.S)
 		return Scalar{App("beval", IntSort, mem, sv.Off, sv.Len)}, nil
+	case "betail64", "bevalue":
+		// betail64(s): the big-endian value, as uint64, of the last min(len(s), 8) bytes of byte slice s (bv mode).
+		// bevalue(s): the same in bv mode; in int mode the (uninterpreted) big-endian value beval(s) of all of s.
+		need(1)
+		v, _ := ev.eval(x.Args[0])
+		sv, ok := v.(SliceV)
+		if ok && name == "bevalue" && ev.ex.Mode != ModeBV {
+			if sv.Region == nil {
+				return Scalar{IntC(0)}, nil
+			}
+			mem := ev.heapMem(sv.Region)
+			ev.ex.Funs["0uf_beval"] = fmt.Sprintf("(declare-fun beval (%s Int Int) Int)", mem.S)
+			return Scalar{App("beval", IntSort, mem, sv.Off, sv.Len)}, nil
+		}
+		if !ok || ev.ex.Mode != ModeBV {
+			ev.fail("betail64 needs a byte slice in bv mode")
+		}
+		if sv.Region == nil {
+			return Scalar{BVC(big.NewInt(0), 64)}, types.Typ[types.Uint64]
+		}
+		mem := ev.heapMem(sv.Region)
+		acc := BVC(big.NewInt(0), 64)
+		for i := int64(0); i < 8; i++ {
+			pos := ev.ex.idxSub(ev.ex.idxAdd(sv.Off, sv.Len), ev.ex.idxConst(i+1))
+			b := BVZeroExt(56, Select(mem, pos))
+			term := BVBin("bvshl", b, BVC(big.NewInt(8*i), 64))
+			acc = BVBin("bvor", acc, Ite(ev.ex.lt(ev.ex.idxConst(i), sv.Len), term, BVC(big.NewInt(0), 64)))
+		}
+		return Scalar{acc}, types.Typ[types.Uint64]
 	case "pow2n":
 		// pow2n(n, max): 2^n for a symbolic 0 <= n < max (1 outside that range)
 		need(2)
@@ -1013,9 +1042,43 @@ func (ev *SpecEnv) havoc(e ast.Expr) {
 				ev.st.Mem[sv.Region] = ev.ex.fresh("hvmem", ev.st.Mem[sv.Region].S)
 			}
 			return
+		case "elems":
+			// elems(s): exactly the elements s[0..len(s)) may change; the rest of the backing array is kept
+			v, _ := ev.eval(ce.Args[0])
+			sv, ok := v.(SliceV)
+			if !ok {
+				ev.fail("modifies elems(): not a slice")
+			}
+			if sv.Region == nil {
+				return
+			}
+			if len(sv.Region.Sub) > 0 {
+				ev.fail("modifies elems(): struct-element regions not supported")
+			}
+			ex := ev.ex
+			old := ev.st.Mem[sv.Region]
+			nw := ex.fresh("hvel", old.S)
+			if sv.Region.FixedLen >= 0 && sv.Region.FixedLen <= 64 {
+				cur := old
+				for p := int64(0); p < sv.Region.FixedLen; p++ {
+					pos := ex.idxConst(p)
+					in := And(ex.le(sv.Off, pos), ex.lt(pos, ex.idxAdd(sv.Off, sv.Len)))
+					cur = Store(cur, pos, Ite(in, Select(nw, pos), Select(old, pos)))
+				}
+				ev.st.Mem[sv.Region] = ex.def("hvmem", cur)
+				return
+			}
+			i := Sym("qi", ex.idxSort())
+			in := And(ex.le(sv.Off, i), ex.lt(i, ex.idxAdd(sv.Off, sv.Len)))
+			ev.st.assume(App(fmt.Sprintf("forall ((qi %s))", ex.idxSort()), BoolSort, Implies(Not(in), Eq(Select(nw, i), Select(old, i)))))
+			ev.st.Mem[sv.Region] = nw
+			return
 		case "ghost":
 			lit := ce.Args[0].(*ast.BasicLit)
 			n, _ := strconv.Unquote(lit.Value)
+			if _, have := ev.st.Ghost[n]; !have {
+				ev.fail("modifies ghost(%q): the function under verification does not declare that ghost (option ghost=...)", n)
+			}
 			ev.st.Ghost[n] = ev.ex.fresh("gh_"+n, ev.st.Ghost[n].S)
 			return
 		}
